@@ -8,6 +8,7 @@ import (
 	"sync"
 	"time"
 
+	"github.com/netflix/rend/common"
 	"github.com/netflix/rend/handlers"
 	"github.com/netflix/rend/handlers/memcached/chunked"
 	"github.com/netflix/rend/handlers/memcached/std"
@@ -222,8 +223,8 @@ type Session struct {
 	L1c    *fakemc.Conn
 	L2c    *fakemc.Conn
 	Ops    []wire.Op
-	Spans  [][2]int // reply bytes produced while each op was being served
-	Ended  bool     // loop has returned
+	marks  *spanParser
+	Ended  bool // loop has returned
 	Panics interface{}
 }
 
@@ -241,7 +242,11 @@ func (w *World) Connect(port int) *Session {
 	if w.Cfg.Proto == "text" {
 		comps = textprot.Components
 	}
-	rp := comps.NewRequestParser(bufio.NewReader(s.Cli))
+	// The parser is wrapped (harness side only) to note how many reply bytes had been written each
+	// time the server loop asks for the next request: that delimits the reply of every request
+	// exactly, also when requests are pipelined.
+	s.marks = &spanParser{inner: comps.NewRequestParser(bufio.NewReader(s.Cli)), cli: s.Cli}
+	var rp protocol.RequestParser = s.marks
 	res := comps.NewResponder(bufio.NewWriter(s.Cli))
 	closers := []io.Closer{s.Cli, l1}
 	if l2 != nil {
@@ -289,15 +294,34 @@ func (s *Session) Send(b []byte) {
 // Do sends one op.
 func (s *Session) Do(op wire.Op) {
 	s.Ops = append(s.Ops, op)
-	s.Cli.mu.Lock()
-	a := len(s.Cli.Out)
-	s.Cli.mu.Unlock()
 	s.Send(wire.Encode(s.W.Cfg.Proto, op))
-	s.Cli.mu.Lock()
-	b := len(s.Cli.Out)
-	s.Cli.mu.Unlock()
-	s.Spans = append(s.Spans, [2]int{a, b})
 }
+
+// DoPipelined sends several ops in one write.
+func (s *Session) DoPipelined(ops []wire.Op) {
+	var b []byte
+	for _, op := range ops {
+		s.Ops = append(s.Ops, op)
+		b = append(b, wire.Encode(s.W.Cfg.Proto, op)...)
+	}
+	s.Send(b)
+}
+
+type spanParser struct {
+	inner protocol.RequestParser
+	cli   *Client
+	marks []int
+}
+
+func (p *spanParser) Parse() (common.Request, common.RequestType, uint64, error) {
+	p.cli.mu.Lock()
+	p.marks = append(p.marks, len(p.cli.Out))
+	p.cli.mu.Unlock()
+	return p.inner.Parse()
+}
+
+// ParseCalls reports how many requests the server loop asked its parser for.
+func (s *Session) ParseCalls() int { return len(s.marks.marks) }
 
 // Hangup closes the client side and waits for the loop to end.
 func (s *Session) Hangup() {
@@ -311,13 +335,25 @@ func (s *Session) Hangup() {
 
 // Replies decodes everything the server wrote for the ops sent so far.
 func (s *Session) Replies() (reps []wire.Reply, stray int, malformed string) {
-	if len(s.Spans) == len(s.Ops) {
-		// commands were issued one at a time: each reply span is decoded on its own
+	mk := s.marks.marks
+	if len(mk) <= len(s.Ops)+1 {
+		// the server asked for one request per request sent (plus the final read that met EOF):
+		// each reply span is decoded on its own
 		for i, op := range s.Ops {
-			reps = append(reps, wire.DecodeSpan(s.W.Cfg.Proto, s.Cli.Out[s.Spans[i][0]:s.Spans[i][1]], op))
+			var span []byte
+			if i < len(mk) {
+				end := len(s.Cli.Out)
+				if i+1 < len(mk) {
+					end = mk[i+1]
+				}
+				span = s.Cli.Out[mk[i]:end]
+			}
+			reps = append(reps, wire.DecodeSpan(s.W.Cfg.Proto, span, op))
 		}
 		return reps, 0, ""
 	}
+	// request framing was lost (the server parsed more requests than were sent): fall back to
+	// attributing the stream as a whole
 	if s.W.Cfg.Proto == "text" {
 		r, tr := wire.DecodeText(s.Cli.Out, s.Ops)
 		return r, tr, ""
